@@ -1,6 +1,7 @@
 import TruthModel.Model.Files
 import TruthModel.Model.FilesEcl
 import TruthModel.Driver.C03
+import TruthModel.Driver.FilesAnm
 /-
 Driver glue for the container-level models (C03 / C16): whole files.
 
@@ -154,6 +155,8 @@ def handle (case : Sexp) : Sexp :=
     | "mission" => fileOutcome hexOut (writeMission (if variant == "th095" then .th095 else .th125) (missionOf (a[2]!)))
     | "ecl" => fileOutcome hexOut (writeEcl (eclFmtOf variant) (eclOf (a[2]!)))
     | _ => .atom "bad-case"
+  | some "ranm" => Driver.FilesAnm.handle case
+  | some "wanm" => Driver.FilesAnm.handle case
   | _ => Driver.C03.handle case
 
 end TruthModel.Driver.Files
